@@ -458,6 +458,16 @@ pub fn failure_shapes(rng: &mut Rng) -> Vec<Shape> {
         p.lines.push(Line::SecData);
         p.lines.push(Line::Data(Data::Word(vec![1, 2])));
     }));
+    // (a section directive that names the segment the label already stands in ends nothing)
+    v.push(mk("label-in-front-of-a-redundant-section-directive", &|p| {
+        p.push(Ins::call("again_text"));
+        exit(p);
+        p.lines.push(Line::SecText);
+        p.label("again_text");
+        p.lines.push(Line::SecText);
+        p.push(Ins::addi(A0, A0, 1));
+        p.push(Ins::ret());
+    }));
     // functions without a return
     v.push(mk("function-infinite-loop", &|p| {
         p.push(Ins::call("spin"));
